@@ -413,6 +413,12 @@ def _fit_peak_single_model(
     fit_requirements: FitRequirements,
 ) -> FitResult:
     model = background + peak
+    if len(data) < len(model.param_names):
+        # Not enough points to fit all parameters.
+        # Checked first because the initial guesses need a minimum number of points.
+        return FitResult.for_too_narrow_window(
+            peak=peak, background=background, window=window
+        )
     bkg_p0 = _guess_background(data, model=background, fit_parameters=fit_parameters)
     p0 = {
         **bkg_p0,
